@@ -51,8 +51,9 @@ def _spec_kwargs(spec):
         kw = {'max_imfs': 2, 'nphases': 2, 'nprocesses': spec['nproc'], 'mask_freqs': spec['mask_freqs']}
     else:
         kw = {'max_imfs': 2, 'nensembles': 2, 'nprocesses': spec['nproc'], 'noise_mode': spec['noise_mode']}
-    if spec.get('imf_opts') is not None:
-        kw['imf_opts'] = dict(spec['imf_opts'])
+    for g in ('imf_opts', 'envelope_opts', 'extrema_opts'):
+        if spec.get(g) is not None:
+            kw[g] = dict(spec[g])
     return kw
 
 
@@ -91,7 +92,12 @@ def scenario(w):
                       'nproc': 1 + ch.pick('nproc%d' % i, 2), 'seed': 777 + i,
                       'mask_freqs': ch.choice('mask_freqs%d' % i, ['zc', 0.2]),
                       'noise_mode': ch.choice('noise_mode%d' % i, ['single', 'flip']),
-                      'imf_opts': ch.choice('imf_opts%d' % i, [None, {'sd_thresh': 0.002}, {'sd_thresh': 0.3, 'env_step_size': 0.5}])})
+                      'imf_opts': ch.choice('imf_opts%d' % i, [None, {'sd_thresh': 0.002}, {'sd_thresh': 0.3, 'env_step_size': 0.5},
+                                                               {'stop_method': 'rilling', 'rilling_thresh': (0.1, 0.7, 0.1), 'max_iters': 60},
+                                                               {'stop_method': 'fixed', 'max_iters': 4},
+                                                               {'energy_thresh': 40, 'sd_thresh': 0.05}]),
+                      'envelope_opts': ch.choice('envelope_opts%d' % i, [None, None, {'interp_method': 'pchip'}]),
+                      'extrema_opts': ch.choice('extrema_opts%d' % i, [None, None, {'pad_width': 3, 'parabolic_extrema': True}])})
     # references in the pristine, never-set-up state, no override
     refs = []
     for sp in specs:
